@@ -225,6 +225,10 @@ def encoder_selftest(run, pr, roots, rebuild, model, timeout_s, nat=None):
         if model is None:
             mv = pr.check(Cond("const", True), timeout_s=min(timeout_s, 60), split=False)
             if mv[0] == "sat": vectors.insert(0, ("solver model", concretize(run, mv[1])))
+            elif mv[0] == "unsat":
+                # the path condition itself is unsatisfiable: no input follows this path, every goal on it holds vacuously
+                res["infeasible_path"] = True; res["method"] = "path condition unsatisfiable (solver): path cannot be taken by any input"
+                return res
     on_path = 0
     for tag, env in vectors:
         if getattr(rebuild, "path_forked", False):
